@@ -156,6 +156,10 @@ def _run_api(env: Any, case: dict[str, Any]) -> Any:
         ref = ra.reformat_text(DOC, **fmt_kw)
         ref2 = ra.reformat_text(DOC2, **fmt_kw)
         nref = len(rec.calls)
+        if symbolic and nref != 2:
+            from engines.symlen import HarnessError
+
+            raise HarnessError(f"the recording stubs for fill_markdown/fill_text were reached {nref} times by two reformat_text calls: reformat_api no longer looks them up in its namespace (encoding refused)")
         sinks: list[tuple[str, str]] = []  # (what was produced, what the text API returned)
         if entry == "text":
             # positional call, as reformat_file does it
